@@ -295,7 +295,7 @@ def evaluate(case, louts, ctx):
     base = observe(copy.deepcopy(built["resp"]), {})
     r = raised(base)
     if r:
-        raise common.HarnessFault("untransformed cube fails: %s (%s)" % (r, desc))
+        return [F("spec", "api.baseline-raises", "%s: the cube WITHOUT transforms fails: %s" % (desc, r))], None
     t_alias = transforms_for(case, built, pl, "alias", False)
     o_alias = observe(copy.deepcopy(built["resp"]), copy.deepcopy(t_alias))
     r = raised(o_alias)
@@ -385,3 +385,79 @@ def check_effect(case, built, pl, base, o_alias, sout, desc, where):
             if al != want:
                 findings.append(F("spec", "api.%s.effect" % where, "%s: labels %r, statement gives %r" % (desc, al, want)))
     return findings
+
+
+# ---------------------------------------------------------------------------------------
+# non-array dimensions: element transforms / order ids keyed by id, str(id) and (datetime) value
+
+
+def keys_case(rng):
+    return {"t": "keys", "kind": rng.choice(["cat", "datetime", "datetime", "text"]), "seed": rng.randrange(1 << 30),
+            "side": rng.choice(["rows_dimension", "columns_dimension"]), "slot": rng.choice(["hide", "rename", "explicit", "fixed"])}
+
+
+def eval_keys(case, ctx):
+    rng = random.Random(case["seed"])
+    kind = case["kind"]
+    v = gen.gen_var(rng, kind, "k", n=rng.randint(2, 4), allow_missing=True, min_valid=2)
+    w = gen.gen_var(rng, "cat", "w", n=rng.randint(2, 3), allow_missing=False)
+    vars_ = [v, w] if case["side"] == "rows_dimension" else [w, v]
+    survey = gen.gen_survey(rng, vars_, n_resp=rng.randint(15, 35), weighted=False, skew=False)
+    resp = gen.cube_response(vars_, survey, False)
+    dd = [d for d in resp["result"]["dimensions"] if d["references"]["alias"] == "k"][0]
+    if kind == "cat":
+        els = [(c["id"], None) for c in dd["type"]["categories"] if not c["missing"]]
+    else:
+        els = [(e["id"], e["value"]) for e in dd["type"]["elements"] if not e["missing"]]
+    k = rng.randrange(len(els))
+    k2 = (k + 1) % len(els)
+    perm = list(range(len(els)))
+    rng.shuffle(perm)
+
+    def spellings(i):
+        out = [("int", els[i][0]), ("str", str(els[i][0]))]
+        if kind == "datetime":
+            out.append(("value", els[i][1]))
+        return out
+
+    def transforms(cls):
+        def ref(i):
+            d = dict(spellings(i))
+            return d.get(cls, d["int"])
+        slot = case["slot"]
+        if slot == "hide":
+            t = {"elements": {ref(k): {"hide": True}}}
+        elif slot == "rename":
+            t = {"elements": {ref(k): {"name": "Renamed"}}}
+        elif slot == "explicit":
+            t = {"order": {"type": "explicit", "element_ids": [ref(i) for i in perm]}}
+        else:
+            t = {"order": {"type": "label", "direction": "ascending", "fixed": {"top": [ref(k)], "bottom": [ref(k2)] if k2 != k else []}}}
+        return {case["side"]: t}
+    findings = []
+    classes = [c for c, _ in spellings(k)]
+    # JSON transforms have string keys; explicit / fixed id lists of a NON-shimmed dimension are compared as they are
+    if kind != "datetime" and case["slot"] in ("explicit", "fixed"):
+        classes = ["int"]
+    base = observe(copy.deepcopy(resp), {})
+    ref_obs = observe(copy.deepcopy(resp), transforms("int"))
+    r = raised(ref_obs)
+    desc = "kind=%s side=%s slot=%s elements=%s item=%d" % (kind, case["side"], case["slot"], els, k)
+    if r:
+        return [F("spec", "keys.%s.raises" % kind, "%s: %s" % (desc, r))], None
+    effect = not common.deep_close(ref_obs, base)[0]
+    if case["slot"] in ("hide", "rename") and not effect:
+        findings.append(F("spec", "keys.%s.no-effect" % kind, "%s: %s by int id has no effect" % (desc, case["slot"])))
+    for cls in classes[1:]:
+        o = observe(copy.deepcopy(resp), transforms(cls))
+        r = raised(o)
+        if r:
+            findings.append(F("spec", "keys.%s.raises" % kind, "%s spelling=%s: %s" % (desc, cls, r)))
+            continue
+        ok, path = common.deep_close(o, ref_obs)
+        if not ok:
+            findings.append(F("spec", "keys.%s.%s-spelling" % (kind, cls),
+                              "%s: reference written as %s gives different output than as int id at %s (%s vs %s)" %
+                              (desc, cls, path, json.dumps(transforms(cls)), json.dumps(transforms("int")))))
+    ctx.count("keys:%s:%s" % (kind, case["slot"]))
+    return findings, (("keys", kind, case["slot"], case["side"]) if effect else None)
